@@ -865,7 +865,8 @@ def check_case(ck, case, ans, stream, parallel, impl=None, history=None):
     if a != b:
         ck.disagreement(stream, case, a, b)
     elif not parallel and impl["exec"] != model["exec"]:
-        ck.disagreement(stream + "-exec-order", case, impl["exec"], model["exec"])
+        # the ORDER in which the runs are executed is not part of the statement (the multiset is judged above)
+        ck.count("execution-order-differs-from-enumeration(not judged)")
     return impl
 
 
